@@ -18,12 +18,14 @@ CONSTANTS Depth, EmitMode,
           NVals,     \* numbers written by `field`
           SVals,     \* strings written by `field`
           AIdx,      \* indices into ArrPool written by `array` / `append`
+          BVals,     \* whole numbers >= 2^31 (decimal strings) written by `field` as hexadecimal literals
           NestC      \* 0: classes only at top level; 1: classes inside top-level classes too
 
 VARIABLES st, prev, lastop, hist
 
-ArrPool == << Arr(<<Num(1)>>), Arr(<<Num(2)>>), Arr(<<Num(3), Str("s"), Arr(<<Num(4), Arr(<<>>)>>)>>), Arr(<<>>) >>
-FVals == { Num(k) : k \in NVals } \cup { Str(s) : s \in SVals }
+ArrPool == << Arr(<<Num(1)>>), Arr(<<Num(2)>>), Arr(<<Num(3), Str("s"), Arr(<<Num(4), Arr(<<>>)>>)>>), Arr(<<>>),
+             Arr(<<Num(16), Big("4294901760"), Arr(<<Big("2147483648"), Num(255)>>)>>) >>
+FVals == { Num(k) : k \in NVals } \cup { Str(s) : s \in SVals } \cup { Big(d) : d \in BVals }
 AVals == { ArrPool[i] : i \in AIdx }
 
 PathsTop == { <<a>> : a \in CN }
@@ -51,8 +53,9 @@ Init == /\ st = InitState
         /\ hist = <<>>
 
 \* generator profile: a history ends with the statement after which the pinned implementation is
-\* unusable (it closed an inheritance cycle, or redefined a deleted name - see Config_Trace)
-Usable(s) == \A c \in Ids(s) : ~s.nodes[c].fz /\ ~s.nodes[c].ofz
+\* not comparable any more (a re-binding that would close an inheritance cycle was refused: the
+\* statement does not say which base remains, and the pinned code hung from there on)
+Usable(s) == \A c \in Ids(s) : ~s.nodes[c].fz
 
 Next == \E o \in Ops :
           /\ Len(hist) < Depth
